@@ -8,3 +8,5 @@ pub struct ExIoError(std::io::Error);
 // the length of a slice is a usize (language fact; vstd only exposes it through exec `len()`)
 #[verifier::external_body]
 pub proof fn axiom_slice_len_bound<T>(s: &[T]) ensures s@.len() <= usize::MAX {}
+#[verifier::external_body]
+pub proof fn axiom_vec_len_bound<T>(v: &Vec<T>) ensures v@.len() <= usize::MAX {}
